@@ -72,9 +72,30 @@ def replay(prop, failed_ids, tier, seed):
     return out
 
 
+def run_standins(prop, tier, seed):
+    """Bounded stand-ins for functions outside the verifier's reach whose contract the proof ASSUMES (e.g. SQL executed by
+    SQLite). Always run; labelled bounded; never counted as proved. Returns list of dicts."""
+    out = []
+    for b in _cfg().get(prop, {}).get("standin", []):
+        if tier == "quick" and not b.get("quick", True):
+            continue
+        t0 = time.time()
+        res, err = _run_bin(b, ["--bounded", "--seed", str(seed), "--tier", tier])
+        summ = [r for r in res if r.get("summary")]
+        bad = [r for r in res if r.get("violation")]
+        s = summ[0] if summ else {}
+        out.append(dict(crate=b["crate"], bin=b.get("bin"), function=b.get("function") or s.get("function"), label="BOUNDED (not a proof)",
+                        error=err, evaluations=s.get("evaluations", 0), distinct_nontrivial=s.get("distinct_nontrivial", 0),
+                        rule=s.get("rule"), bound=s.get("bound"), exhaustive=s.get("exhaustive", False),
+                        violations=bad, wall_s=round(time.time() - t0, 2)))
+    return out
+
+
 def rerun(prop, path):
     d = json.load(open(path))
     cfg = _cfg().get(prop)
+    if d.get("standin"):
+        cfg = dict(d["standin"])
     if not cfg:
         print("no replay binary for %s; stored verifier output:" % prop)
         print(json.dumps(d.get("verifier_output"), indent=1)[:4000])
